@@ -120,6 +120,7 @@ func (e *Engine) doCall(f *frame, st *State, cc *ssa.CallCommon, args []Val, fnv
 			ats = append(ats, a.Type())
 		}
 		e.record(Event{Guard: reach, Recv: fnv, RecvT: recvT, Callee: cc.Method.Name(), Iface: iface, Args: snaps, ArgTypes: ats, Res: asList(res), Pos: pos})
+		e.ifaceFacts(iface, cc.Method.Name(), args, asList(res), reach)
 		if e.pure == 0 {
 			for i, a := range args {
 				if _, isPtr := cc.Args[i].Type().Underlying().(*types.Pointer); isPtr && !e.ctx.ifaceKeepsArgs(iface, cc.Method.Name()) {
@@ -180,6 +181,9 @@ func (e *Engine) builtin(f *frame, st *State, callee *ssa.Builtin, cc *ssa.CallC
 		case SliceV:
 			if callee.Name() == "len" {
 				return IntV{sv.Len}, st, reach
+			}
+			if e.pure == 0 {
+				return IntV{e.capTerm(sv)}, st, reach
 			}
 		case StrV:
 			if e.bv() {
@@ -250,6 +254,19 @@ func (e *Engine) builtin(f *frame, st *State, callee *ssa.Builtin, cc *ssa.CallC
 	case "copy":
 		if d, ok := args[0].(SliceV); ok && d.Arr != nil {
 			e.havocArr(st, d.Arr)
+			// copy returns min(len(dst), len(src))
+			srcLen := ""
+			switch s := args[1].(type) {
+			case SliceV:
+				srcLen = s.Len
+			case StrV:
+				if !e.bv() {
+					srcLen = "(str.len " + s.T + ")"
+				}
+			}
+			if srcLen != "" && !e.bv() {
+				return IntV{ite("(<= "+d.Len+" "+srcLen+")", d.Len, srcLen)}, st, reach
+			}
 		}
 		return e.results(st, sig, "copy"), st, reach
 	case "panic":
@@ -358,9 +375,37 @@ func (e *Engine) callContract(f *frame, st *State, callee *ssa.Function, fc *Fun
 	entry := st.clone()
 	// frame: pointer arguments named in assigns are forgotten
 	for _, a := range fc.Assigns {
+		pname, field, hasField := strings.Cut(a, ".")
 		for i, p := range callee.Params {
-			if p.Name() == a {
+			if p.Name() != pname {
+				continue
+			}
+			if !hasField {
 				e.havocPointee(st, args[i], a)
+				continue
+			}
+			// assigns p.field: only that field of the object behind p is forgotten
+			pv, ok := args[i].(PtrV)
+			if !ok {
+				continue
+			}
+			pv = e.materialise(st, pv, reach, pos)
+			sv, ok := st.cells[pv.Cell].(StructV)
+			if !ok {
+				continue
+			}
+			for k := 0; k < sv.Typ.NumFields(); k++ {
+				if sv.Typ.Field(k).Name() == field {
+					old := e.field(sv, k)
+					nv := e.symbolic(st, sv.Typ.Field(k).Type(), callee.Name()+"_"+field)
+					if osl, ok := old.(SliceV); ok {
+						// a slice field may also be written in place
+						if osl.Arr != nil {
+							e.havocArr(st, osl.Arr)
+						}
+					}
+					st.cells[pv.Cell] = e.setPath(st.cells[pv.Cell], []int{k}, nv)
+				}
 			}
 		}
 	}
